@@ -677,8 +677,11 @@ func (c *Compiler) compileBranchStmt(node *parser.BranchStmt) error {
 			pos = c.emit(node, OpJump, 0)
 		} else {
 			// the jump leaves a try statement of the loop body, or the finally
-			// block of one: its handler, consumed or not, must go.
-			c.emit(node, OpFinalizer, curLoop.lastTryCatchIndex+1)
+			// block of one: its handler, consumed or not, must go. The handlers
+			// of the try statements whose finally blocks enclose the loop are
+			// still on the frame (consumed), they are counted but kept.
+			c.emit(node, OpFinalizer,
+				curLoop.lastTryCatchIndex+curLoop.finallyDepth+1)
 			pos = c.emit(node, OpJump, 0)
 		}
 		curLoop.breaks = append(curLoop.breaks, pos)
@@ -693,7 +696,8 @@ func (c *Compiler) compileBranchStmt(node *parser.BranchStmt) error {
 			curLoop.finallyDepth == c.finallyDepth {
 			pos = c.emit(node, OpJump, 0)
 		} else {
-			c.emit(node, OpFinalizer, curLoop.lastTryCatchIndex+1)
+			c.emit(node, OpFinalizer,
+				curLoop.lastTryCatchIndex+curLoop.finallyDepth+1)
 			pos = c.emit(node, OpJump, 0)
 		}
 		curLoop.continues = append(curLoop.continues, pos)
